@@ -192,25 +192,47 @@ type runnablePipeline struct {
 	// also erased the marker of a concurrent (or earlier, accepted) stop.
 	stopMu       sync.Mutex
 	stopRequests int
+	// userStopRequests counts the held requests that came from Stop (a user or
+	// provisioning) rather than from StopAll (shutdown); userStop is true while
+	// there is one. A run stopped by a user ends as StatusUserStopped even if
+	// Conduit starts shutting down before the stop is finalized: it must not be
+	// started again on the next boot (StatusSystemStopped). Mirrors pkg/lifecycle.
+	userStopRequests int
+	userStop         atomic.Bool
 }
 
 // markIntentionalStop records a stop request on this run.
-func (rp *runnablePipeline) markIntentionalStop() {
+func (rp *runnablePipeline) markIntentionalStop(user bool) {
 	rp.stopMu.Lock()
 	defer rp.stopMu.Unlock()
 	rp.stopRequests++
 	rp.intentionalStop.Store(true)
+	if user {
+		rp.userStopRequests++
+		rp.userStop.Store(true)
+	}
 }
 
 // withdrawIntentionalStop takes back the request of a graceful stop that armed
 // nothing and clears the marker if no other stop request holds it.
-func (rp *runnablePipeline) withdrawIntentionalStop() {
+func (rp *runnablePipeline) withdrawIntentionalStop(user bool) {
 	rp.stopMu.Lock()
 	defer rp.stopMu.Unlock()
 	rp.stopRequests--
 	if rp.stopRequests == 0 {
 		rp.intentionalStop.Store(false)
 	}
+	if user {
+		rp.userStopRequests--
+		rp.userStop.Store(rp.userStopRequests > 0)
+	}
+}
+
+// stoppedBySystem reports whether the end of rp has to be attributed to the
+// graceful shutdown of Conduit: a shutdown is in progress and no user asked for
+// this run to stop.
+func (s *Service) stoppedBySystem(rp *runnablePipeline) bool {
+	return s.isGracefulShutdown.Load() && !rp.userStop.Load()
 }
 
 // ConnectorService can fetch and create a connector instance, and report when
@@ -336,7 +358,7 @@ func (s *Service) Stop(ctx context.Context, pipelineID string, force bool) error
 		return cerrors.Errorf("can't stop pipeline with status %q: %w", rp.pipeline.GetStatus(), pipeline.ErrPipelineNotRunning)
 	}
 
-	return s.stopRunnablePipeline(ctx, rp, force)
+	return s.stopRunnablePipeline(ctx, rp, force, true)
 }
 
 // StopAll will ask all the running pipelines to stop gracefully
@@ -362,12 +384,12 @@ func (s *Service) StopAll(ctx context.Context, force bool) error {
 		if rp.pipeline.GetStatus() != pipeline.StatusRunning && rp.pipeline.GetStatus() != pipeline.StatusRecovering {
 			continue
 		}
-		errs = append(errs, s.stopRunnablePipeline(ctx, rp, force))
+		errs = append(errs, s.stopRunnablePipeline(ctx, rp, force, false))
 	}
 	return cerrors.Join(errs...)
 }
 
-func (s *Service) stopRunnablePipeline(ctx context.Context, rp *runnablePipeline, force bool) error {
+func (s *Service) stopRunnablePipeline(ctx context.Context, rp *runnablePipeline, force, user bool) error {
 	switch force {
 	case false:
 		s.logger.Info(ctx).
@@ -384,7 +406,7 @@ func (s *Service) stopRunnablePipeline(ctx context.Context, rp *runnablePipeline
 		// instead of misreading it as a spontaneous failure and
 		// auto-restarting via recoverPipeline. See the intentionalStop field
 		// doc.
-		rp.markIntentionalStop()
+		rp.markIntentionalStop(user)
 
 		// H1 (adversarial review of #2734): every worker's Stop call is
 		// dispatched CONCURRENTLY, all against the SAME ctx deadline,
@@ -487,7 +509,7 @@ func (s *Service) stopRunnablePipeline(ctx context.Context, rp *runnablePipeline
 			// single-worker rollback condition ("nothing began stopping"),
 			// generalized to "no worker began stopping". Only this call's own
 			// request is taken back: the marker stays if another stop holds it.
-			rp.withdrawIntentionalStop()
+			rp.withdrawIntentionalStop(user)
 		case len(unarmedSources) > 0:
 			// H1 (adversarial review): PARTIAL arming. Some source(s) armed
 			// and tore down their connector; other(s) are still reading.
@@ -553,7 +575,7 @@ func (s *Service) stopRunnablePipeline(ctx context.Context, rp *runnablePipeline
 		// transient error (e.g. it is parked in the recovery backoff wait) the
 		// Kill below is a no-op, and the marker is what keeps recovery from
 		// restarting it.
-		rp.markIntentionalStop()
+		rp.markIntentionalStop(user)
 		rp.t.Kill(cerrors.FatalError(pipeline.ErrForceStop))
 		return nil
 	}
@@ -1611,7 +1633,7 @@ func (s *Service) runPipeline(rp *runnablePipeline) error {
 			// not an actual error, the pipeline stopped gracefully
 			err = nil
 			var status pipeline.Status
-			if s.isGracefulShutdown.Load() {
+			if s.stoppedBySystem(rp) {
 				// it was triggered by a graceful shutdown of Conduit
 				status = pipeline.StatusSystemStopped
 			} else {
@@ -1630,7 +1652,7 @@ func (s *Service) runPipeline(rp *runnablePipeline) error {
 				if err := s.pipelines.UpdateStatus(ctx, rp.pipeline.ID, pipeline.StatusDegraded, fmt.Sprintf("%+v", err)); err != nil {
 					return err
 				}
-			case s.isGracefulShutdown.Load():
+			case s.stoppedBySystem(rp):
 				// Transient error that fired while Conduit is already shutting
 				// down: do not start a recovery loop that would race the
 				// shutdown (invariant 7). Finalize as a system stop. This is a
@@ -1901,7 +1923,7 @@ func (s *Service) StartWithBackoff(ctx context.Context, rp *runnablePipeline) er
 	// If a graceful shutdown began while we waited, do not restart — finalize a
 	// system stop instead (invariant 7). Checked after the guard so a legitimate
 	// concurrent restart still wins.
-	if s.isGracefulShutdown.Load() {
+	if s.stoppedBySystem(rp) {
 		return errGracefulShutdownDuringRecovery
 	}
 
